@@ -428,6 +428,41 @@ def tree_names(ctx, form, ev):
     ctx.dist["tree-names:names"] = ctx.dist.get("tree-names:names", 0) + len(names)
 
 
+# ------------------------------------------------------------------ attribute names of <bind> / <setvalue> (C01Binds, C01BindsCells)
+
+
+def bind_attrs(ctx, form, ev):
+    """The conclusion of `bind_nodes_noBr_of_cells` (Pyxv.Proofs.C01BindsCells) evaluated on the implementation's own
+    output: the attribute names of the model's `<bind>` / `<setvalue>` children are `nodeset`, type-table keys, literals
+    of the generated helpers and the `bind::X` header tokens — so one that contains `]` needs a survey header cell that
+    contains `]` (and then only inside the typo literal, the validation pass having accepted it)."""
+    t = ev["verdict"][False].get("tree") if ev.get("verdict") else None
+    dp = deep_parts(t) if t else None
+    if dp is None:
+        ctx.count("bind-attrs:skipped")
+        return
+    headers = set()
+    for r in form.get("survey", []):
+        if isinstance(r, dict):
+            headers.update(str(k) for k in r)
+    hdr_br = any("]" in h for h in headers)
+    n = 0
+    for k in dp["rest"]:
+        if k.get("t") not in ("bind", "setvalue"):
+            continue
+        for a, _v in k.get("a", []):
+            n += 1
+            if "]" in a:
+                ctx.count("bind-attrs:name-with-bracket")
+                if not hdr_br:
+                    ctx.mismatch("<bind> attribute name with `]` although no survey header contains `]` (bind_nodes_noBr_of_cells)",
+                                 form, a, "no `]`")
+                elif c01_gen.TYPO_LIT not in a:
+                    ctx.mismatch("<bind> attribute name with `]` outside the typo literal (noBr_of_isXmlTag)", form, a, "no `]`")
+    ctx.count("bind-attrs:checked")
+    ctx.dist["bind-attrs:names"] = ctx.dist.get("bind-attrs:names", 0) + n
+
+
 # ------------------------------------------------------------------ one case
 
 
@@ -479,6 +514,7 @@ def form_case(ctx, form, via="dict", fallback="data", stream="general"):
     if ev["verdict"]:
         correspondence(ctx, form, ev)
         tree_names(ctx, form, ev)
+        bind_attrs(ctx, form, ev)
     ctx.record(case, True)
 
 
